@@ -150,6 +150,20 @@ func kernelsKoalabear(c *mon.Ctx) {
 				r.Free()
 			}
 		}
+		// sparse inputs: runs of zero elements aligned / not aligned with the 256-element blocks
+		for si, zr := range [][2]int{{0, 256}, {256, 512}, {0, 512}, {100, 400}, {512, 768}, {255, 257}, {0, 1000}} {
+			v := rnd(1000)
+			for i := zr[0]; i < zr[1] && i < len(v); i++ {
+				v[i].SetZero()
+			}
+			res := make([]fr.Element, s.Degree)
+			rec(c, fmt.Sprintf("%s/SIS.Hash/log%d-b%d/sparse%d", N, ps[0], ps[1], si), func() []byte {
+				if err := s.Hash(v, res); err != nil {
+					return []byte("error:" + err.Error())
+				}
+				return rawBytes(res)
+			})
+		}
 		c.Class(fmt.Sprintf("%s/SIS/log%d-b%d", N, ps[0], ps[1]))
 	}
 	// MulAccE4
